@@ -603,6 +603,11 @@ def check(prop, tier, seed, into=None):
     neg = run_tlc("Tee", cfg_text(3, 2, 1, False, 0, False, edges=False, invs=["Complete"]), expect_violation=True, timeout=600)
     if neg["ok"]:
         raise MachineryError("vacuity guard: Tee without lock and with a suspending source satisfies Complete")
+    if prop == "C09":
+        from . import checks_tm as _ctm  # noqa: PLC0415
+        want_, got_ = _ctm.tee_over_list(tm.load_lib())
+        if want_ != got_:
+            v.violation("C09/tee/children-over-an-edited-list-see-different-items", {"engine": "scenario", "expected": want_, "observed": got_})
     # 4. random schedules beyond the exhaustive bounds
     nrand = 300 if tier == "mini" else 1500 if tier == "quick" else 20000
     rjobs = []
